@@ -211,6 +211,32 @@ def known_findings():
 # --------------------------------------------------------------------------------------------
 # the check
 
+def extract_case(ops_file, case_no):
+    """The ops of case `case_no` (0-based) of an ops file, with the implementation's answers."""
+    try:
+        impl_file = ops_file[:-4] + ".impl"
+        ops = open(ops_file).read().splitlines()
+        imp = open(impl_file).read().splitlines() if os.path.exists(impl_file) else []
+        out, cur = [], -1
+        for i, l in enumerate(ops):
+            if l.startswith("case "):
+                cur += 1
+            if cur == case_no:
+                out.append({"op": l, "impl": imp[i] if i < len(imp) else None})
+        return out[:2000]
+    except Exception as e:
+        return [{"error": str(e)}]
+
+
+def attach_case(v):
+    m = re.search(r":: case (\d+)", v.get("what", ""))
+    if m and v.get("ops_file"):
+        v = dict(v)
+        v["case"] = extract_case(v["ops_file"], int(m.group(1)))
+        v["how_to_replay"] = "write the 'op' lines to a file F and run: harness/target/release/seq file F /tmp/replay && lean/.lake/build/bin/driver < F"
+    return v
+
+
 def write_replay(prop, seed, n, payload):
     path = os.path.join(VERIF, "replays", f"{prop}-{seed}-{n}.json")
     with open(path, "w") as f:
@@ -277,9 +303,9 @@ def run_check(prop, tier, seed, replay=None):
     searched = False
     if not I and (M or T) and ok_harness:
         searched = True
-        log(f"[{prop}] proof obligations or correspondence broken; searching for a failing input (20x budget)")
-        for k in range(1, 4):
-            ctx2 = dict(ctx, mult=7, seed=seed + 1000 * k, search=True)
+        log(f"[{prop}] proof obligations or correspondence broken; searching for a failing input (larger budget, other seeds)")
+        for k in range(1, 3):
+            ctx2 = dict(ctx, mult=3, seed=seed + 1000 * k, search=True)
             for stream in spec["streams"]:
                 r = stream(ctx2)
                 I += r.get("I", [])
@@ -308,8 +334,9 @@ def run_check(prop, tier, seed, replay=None):
         fps = {}
         for v in violations:
             fps.setdefault(v.get("fingerprint", "?"), v)
-        for n, (fp, v) in enumerate(fps.items()):
-            path = write_replay(prop, seed, n, {"property": prop, "kind": "implementation violates the property", "violation": v,
+        for n, (fp, v) in enumerate(list(fps.items())[:5]):
+            path = write_replay(prop, seed, n, {"property": prop, "kind": "implementation violates the property", "violation": attach_case(v),
+                                                "other_fingerprints": sorted(fps.keys())[:40],
                                                 "broken_obligations": T, "model_disagreements": M[:5]})
             log(f"VIOLATION property={prop} replay={path}")
             n_viol += 1
